@@ -165,9 +165,11 @@ class Ref:
 
 # ---------------------------------------------------------------------------
 # denotational spec (python transliteration of Calc.denote_* in coq/Text/Calc.v), on the library's data
-def inside(objs, pcs, pns):
+def inside(objs, pcs, pns, flt=None):
     res = []
     for o in objs:
+        if not G.passes_filter(o, flt):
+            continue
         cs = o["cs"] or G.EMPTY
         ns = o["nds"] or G.EMPTY
         if not cs.is_empty() and not cs.intersects(pcs):
@@ -248,8 +250,8 @@ def select(objs, r, logical):
 
 
 def denote_path(info, steps, pcs, pns, logical):
-    d, ty, _, r = steps[0]
-    objs = inside(info.level(d), pcs, pns)
+    d, ty, r = steps[0][0], steps[0][1], steps[0][3]
+    objs = inside(info.level(d), pcs, pns, steps[0][4] if len(steps[0]) > 4 else None)
     cs, ns = G.EMPTY, G.EMPTY
     for o in select(objs, r, logical):
         if len(steps) == 1:
@@ -370,6 +372,9 @@ def spec_expected(info, ref, rootsets, ast, outmode):
         r = ref.ask("covering %d %s %s" % (outmode[2], cs1.text(), ns.text()))
         if r and r[0].startswith("covering") and "?" not in r[0]:
             ents = [x.split(":") for x in r[0].split()[1:]]
+            if len(outmode) > 3 and outmode[3]:
+                lv = info.level(outmode[2])
+                ents = [e for e in ents if int(e[0]) < len(lv) and G.passes_filter(lv[int(e[0])], outmode[3])]
             if om == "N":
                 exp = "%d\n" % len(ents)
             elif not st["oo"]:
@@ -749,7 +754,17 @@ def args_to_ast(info, ref, args):
     out = ("set",)
     i = 0
 
+    def split_filter(name):
+        m = re.fullmatch(r"([A-Za-z0-9]+)\[([^\]]*)\]", name)
+        if not m:
+            return name, None
+        f = m.group(2)
+        if f.startswith("tier="):
+            return m.group(1), ("tier", G.atoi(f[5:]))
+        return m.group(1), ("subtype", f[8:] if f.startswith("subtype=") else f)
+
     def level_of(name, out=False):
+        name = split_filter(name)[0]
         if name.isdigit():
             d = int(name)
             return (d, info.level_type.get(d)) if 0 <= d < info.depth else None
@@ -770,7 +785,7 @@ def args_to_ast(info, ref, args):
                 lv = level_of(v, out=True)
                 if not lv:
                     return None
-                out = ("I" if a in ("-I", "--intersect") else "N", v, lv[0])
+                out = ("I" if a in ("-I", "--intersect") else "N", v, lv[0], split_filter(v)[1])
             elif a in ("-H", "--hierarchical"):
                 lvs = [level_of(x) for x in v.split(".")]
                 out = ("H", v, [l[0] for l in lvs] if all(l and l[0] >= 0 for l in lvs) else [])
@@ -789,14 +804,14 @@ def args_to_ast(info, ref, args):
             mode, a = a[0], a[1:]
         if a in ("all", "root"):
             ast.append(("loc", mode, "all", a))
-        elif re.fullmatch(r"[A-Za-z0-9]+:%s(\.[A-Za-z0-9]+:%s)*" % (RANGE_RE, RANGE_RE), a):
+        elif re.fullmatch(r"[A-Za-z0-9]+(\[[^\]]*\])?:%s(\.[A-Za-z0-9]+(\[[^\]]*\])?:%s)*" % (RANGE_RE, RANGE_RE), a):
             steps = []
             for part in a.split("."):
                 name, rt = part.split(":", 1)
                 lv = level_of(name)
                 if not lv:
                     return None
-                steps.append((lv[0], lv[1], name, parse_range_text(rt)))
+                steps.append((lv[0], lv[1], name, parse_range_text(rt), split_filter(name)[1]))
             ast.append(("loc", mode, "path", steps))
         elif re.fullmatch(r"[0-9a-fA-Fx,.\-]+", a):
             ast.append(("loc", mode, "set", a))
@@ -1817,6 +1832,7 @@ def load_corpus():
             line = line.rstrip("\n")
             if line.startswith("topology: "):
                 kind, arg = line[10:].split(" ", 1)
+                arg = arg.replace("$REPO", C.REPO)
             elif line.startswith("args: ") and kind:
                 toks = [unesc(t) for t in line[6:].split(" ") if t != ""]
                 res.append({"file": os.path.basename(p), "kind": kind, "arg": arg, "args": toks})
@@ -1912,6 +1928,10 @@ def check(run, replay=None):
         il = os.path.join(C.REPO, "tests/hwloc/xml/16em64t-4s2c2t.xml")
         if os.path.exists(il):
             topos.append(("xml", il))
+        # memory tiers and subtypes (bracket filters of the location grammar)
+        for n in ("64intel64-fakeKNL-SNC4-hybrid.xml", "8intel64-4n2t-memattrs.xml"):
+            if os.path.exists(os.path.join(C.REPO, "tests/hwloc/xml", n)):
+                topos.append(("xml", os.path.join(C.REPO, "tests/hwloc/xml", n)))
         # memory-side caches: in front of some but not all nodes of an attach point, several nodes per attach point,
         # CPU-less nodes behind a cache (restrict), and the XML of the test suite
         for s in ["pack:2 [numa(memorysidecachesize=268435456)] [numa] core:2 pu:2", "pack:2 [numa(memorysidecachesize=1048576)] core:2 pu:2",
